@@ -4,6 +4,7 @@ import ThriftVerif.Lib.Determinism
 /- model driver for C07: one line per op
      R <content> <np> (<point name> <patch text>)*   → hex of the file content BuildResponse produces
      D <path> <ni> (<k> <v>)* <nn> (<k> <v>)*         → hex of meta.Marshal(FileDescriptor); the entries come in any order (the model sorts, as the code does)
+     V <n> (<k> <v>)*                                 → hex of meta.Marshal(ConstValueDescriptor{MAP}) with string keys/values; keys may repeat
      N <style> <n> (<name> <id>)*                     → name2id (sorted) and Get(id) per entry after Add in the given order
 -/
 namespace Driver.C07
@@ -44,6 +45,13 @@ def handleLine (line : String) : String :=
         | none => "bad-op"
       | _ => "bad-op"
     | _, _ => "bad-op"
+  | "V" :: n :: rest =>
+    match n.toNat? with
+    | some k =>
+      match takePairs k rest with
+      | some (es, []) => VL.hexEncode (encCVMap es)
+      | _ => "bad-op"
+    | none => "bad-op"
   | "N" :: style :: n :: rest =>
     match n.toNat? with
     | some k =>
